@@ -954,14 +954,24 @@ impl DataSource for FileScanConfig {
             if let Some(file_group) = self.file_groups.get(partition)
                 && let Some(stat) = file_group.file_statistics(None)
             {
+                // A filter may drop rows (as `FileScanConfig::statistics` knows for
+                // the whole scan): the group's statistics then only estimate what
+                // this partition emits.
+                let filtered = self.file_source.filter().is_some()
+                    && stat.num_rows != Precision::Exact(0);
+                let stat = if filtered {
+                    stat.clone().to_inexact()
+                } else {
+                    stat.clone()
+                };
                 // Project the statistics based on the projection
                 let output_schema = self.projected_schema()?;
                 return if let Some(projection) = self.file_source.projection() {
                     Ok(Arc::new(
-                        projection.project_statistics(stat.clone(), &output_schema)?,
+                        projection.project_statistics(stat, &output_schema)?,
                     ))
                 } else {
-                    Ok(Arc::new(stat.clone()))
+                    Ok(Arc::new(stat))
                 };
             }
             // If no statistics available for this partition, return unknown
